@@ -38,6 +38,7 @@ import (
 	"net/http/httptest"
 	"os"
 	"os/exec"
+	"reflect"
 	"regexp"
 	"strconv"
 	"strings"
@@ -68,7 +69,7 @@ Local Open Scope N_scope.
 
 const (
 	never    = -1 // duration of an item that never ends
-	probeAt  = 70 // ms after shutdown began at which every listener is probed
+	probeAt  = 150 // ms after shutdown began at which every listener is probed
 	lowerTol = 25 // ms a measured time may lie below the model's
 	upperTol = 800
 )
@@ -86,6 +87,11 @@ type srvSpec struct {
 	// a group number: all servers of a group listen on the SAME port number (on different IPs)
 	IP        string `json:"ip,omitempty"`
 	PortGroup int    `json:"port_group,omitempty"`
+	// histories: proxy.CloseProxy(addr) is called for this listener (what main.go's tcp-dynamic
+	// watcher does when a port loses its routes) CloseAt ms relative to the start of
+	// Shutdown: negative = before (with the in-flight connections still open), positive = while
+	// Shutdown runs, 0 = never
+	CloseAt int `json:"close_at_ms,omitempty"`
 }
 
 type scenario struct {
@@ -222,6 +228,17 @@ func blackhole() (addr string, ok bool) {
 		}
 	}
 	return "", false
+}
+
+// closeProxy calls proxy.CloseProxy through reflection: the harness must keep compiling when the
+// function grows a second (wait) parameter, which main.go would fill with proxy.shutdownwait.
+func closeProxy(addr string, wait time.Duration) {
+	fn := reflect.ValueOf(proxy.CloseProxy)
+	args := []reflect.Value{reflect.ValueOf(addr)}
+	if fn.Type().NumIn() == 2 {
+		args = append(args, reflect.ValueOf(wait))
+	}
+	fn.Call(args)
 }
 
 func freeAddr() string {
@@ -695,12 +712,33 @@ func runChild(sc scenario) (res result) {
 	}
 	time.Sleep(20 * time.Millisecond)
 
+	// ---- the history before shutdown: CloseProxy for listeners that lost their routes
+	waitD := time.Duration(sc.Wait) * time.Millisecond
+	lead := 0
+	for i, s := range sc.Servers {
+		if s.CloseAt < 0 {
+			go closeProxy(addrs[i], waitD)
+			if -s.CloseAt > lead {
+				lead = -s.CloseAt
+			}
+		}
+	}
+	time.Sleep(time.Duration(lead) * time.Millisecond)
+
 	// ---- shutdown
 	ret := make(chan int, 1)
 	mu.Lock()
 	t0 = time.Now()
 	mu.Unlock()
 	close(w.start)
+	for i, s := range sc.Servers {
+		if s.CloseAt > 0 {
+			go func(a string, d int) {
+				time.Sleep(time.Duration(d) * time.Millisecond)
+				closeProxy(a, waitD)
+			}(addrs[i], s.CloseAt)
+		}
+	}
 	go func() {
 		proxy.Shutdown(time.Duration(sc.Wait) * time.Millisecond)
 		ret <- int(time.Since(t0).Milliseconds())
@@ -900,10 +938,10 @@ func main() {
 
 	run := vh.Start("C18")
 	r := run.Rng
-	const wait = 300
+	const wait = 800
 	// durations: short = ends well within the wait, long = well beyond it; never closer than 90 ms to the wait
-	short := func() int { return 60 + r.Intn(150) }            // 0.2x .. 0.7x
-	long := func() int { return wait + 100 + r.Intn(2*wait-100) } // 1.33x .. 3x
+	short := func() int { return 200 + r.Intn(250) }               // 0.25x .. 0.56x: ends >= 350 ms before the deadline
+	long := func() int { return wait + 400 + r.Intn(2*wait-400) } // 1.5x .. 3x: >= 400 ms beyond the deadline
 	scs := []scenario{
 		{Name: "http", Class: "http", Servers: []srvSpec{{Kind: "http", Items: []int{short(), short(), long(), 3 * wait}}}},
 		{Name: "http-short+idle", Class: "http", Servers: []srvSpec{{Kind: "http", Items: []int{short(), short()}}, {Kind: "http"}}},
@@ -931,6 +969,26 @@ func main() {
 		{Name: "same-port-http+tcp", Class: "same-port", Servers: []srvSpec{
 			{Kind: "http", Items: []int{short(), long()}, IP: "127.0.0.2", PortGroup: 1}, {Kind: "tcp", Items: []int{short(), never}, PortGroup: 1},
 			{Kind: "grpc", Items: []int{short()}, PortGroup: 2}, {Kind: "dyn", Items: []int{short()}, IP: "127.0.0.2", PortGroup: 2}}},
+		// histories: a dynamically opened listener is closed by CloseProxy shortly before, or while, Shutdown runs
+		{Name: "close-before-busy", Class: "history", Servers: []srvSpec{
+			{Kind: "http", Items: []int{short(), long()}}, {Kind: "dyn", Items: []int{short(), never}, CloseAt: -100}, {Kind: "tcp", Items: []int{short(), never}}}},
+		{Name: "close-before-idle", Class: "history", Servers: []srvSpec{
+			{Kind: "http", Items: []int{short()}}, {Kind: "grpc", Items: []int{short(), never}}, {Kind: "dyn", CloseAt: -100}}},
+		{Name: "close-before-two", Class: "history", Servers: []srvSpec{
+			{Kind: "dyn", Items: []int{short()}, CloseAt: -250}, {Kind: "dyn", Items: []int{long()}}, {Kind: "tcp", CloseAt: -100},
+			{Kind: "comp", Items: []int{short()}, Https: []int{short(), long()}}}},
+		{Name: "close-during", Class: "history", Servers: []srvSpec{
+			{Kind: "http", Items: []int{short(), long()}}, {Kind: "dyn", Items: []int{short(), never}, CloseAt: 100}, {Kind: "tcp", Items: []int{short()}}}},
+		{Name: "close-before-and-during", Class: "history", Servers: []srvSpec{
+			{Kind: "dyn", Items: []int{short(), long()}, CloseAt: -100}, {Kind: "dyn", Items: []int{short(), never}, CloseAt: 200}, {Kind: "http", Items: []int{short()}}}},
+		// second instances of the main classes with other durations
+		{Name: "http-2", Class: "http", Servers: []srvSpec{{Kind: "http", Items: []int{short(), long(), never}}, {Kind: "http", Items: []int{long()}}}},
+		{Name: "tcp-2", Class: "tcp", Servers: []srvSpec{{Kind: "tcp", Items: []int{short(), long()}}, {Kind: "sni", Items: []int{short(), long()}}, {Kind: "dyn", Items: []int{never}}}},
+		{Name: "grpc-2", Class: "grpc", Servers: []srvSpec{{Kind: "grpc", Items: []int{short(), long(), never}}, {Kind: "grpc", Items: []int{short()}}}},
+		{Name: "composite-2", Class: "composite", Servers: []srvSpec{{Kind: "comp", Items: []int{short(), long()}, Https: []int{short(), never}}, {Kind: "http", Items: []int{short()}}}},
+		{Name: "mixed-2", Class: "mixed", Servers: []srvSpec{
+			{Kind: "grpc", Items: []int{short(), never}}, {Kind: "tcp", Items: []int{short(), long()}}, {Kind: "http", Items: []int{short(), long()}},
+			{Kind: "blk", Stuck: []int{short(), 10 * wait}}, {Kind: "sni", Items: []int{short(), never}}}},
 		{Name: "idle-http", Class: "idle", Servers: []srvSpec{{Kind: "http"}}},
 		{Name: "idle-all", Class: "idle", Servers: []srvSpec{{Kind: "http"}, {Kind: "tcp"}, {Kind: "grpc"}, {Kind: "comp"}}},
 	}
@@ -981,7 +1039,7 @@ func main() {
 
 	results := make([]result, len(scs))
 	errs := make([]error, len(scs))
-	sem := make(chan struct{}, 3)
+	sem := make(chan struct{}, 4)
 	var wg sync.WaitGroup
 	for i := range scs {
 		wg.Add(1)
@@ -1013,9 +1071,16 @@ func main() {
 			run.Violation(run.NextID(), "scenario "+sc.Name+" could not be set up three times (harness problem, no verdict): "+msg, sc)
 			continue
 		}
-		srv := make([]string, len(sc.Servers))
+		var srv []string // the history: starts in order, then the CloseProxy calls
 		for k, s := range sc.Servers {
-			srv[k] = vh.Pair(coqAddr(res.Addrs[k]), coqServer(s))
+			srv = append(srv, vh.App("HStart", coqAddr(res.Addrs[k]), coqServer(s)))
+		}
+		for k, s := range sc.Servers {
+			if s.CloseAt < 0 {
+				srv = append(srv, vh.App("HClose", coqAddr(res.Addrs[k])))
+			} else if s.CloseAt > 0 {
+				srv = append(srv, vh.App("HCloseDuring", coqAddr(res.Addrs[k])))
+			}
 		}
 		T := vh.None
 		if res.T >= 0 {
